@@ -169,7 +169,7 @@ RULE_DET = ("each run draws a schema of >= 6 definitions, splits it into a commo
 
 def _C20():
     from props import det
-    return {"arms": [Arm(det, "det", 160, 12000, label="S-DET")], "level": "exploration", "rule": RULE_DET,
+    return {"arms": [Arm(det, "det", 160, 4000, label="S-DET")], "level": "exploration", "rule": RULE_DET,
             "assumptions": ["PYTHONHASHSEED values are explicit integers (never 'random', which could not be replayed)",
                             "the sack (libclang) front-end is not exercised: python bindings for clang are not installed "
                             "in /venv"],
@@ -193,7 +193,7 @@ RULE_COMP = ("each run draws a valid schema in prophy or isar syntax and applies
 
 def _C13():
     from props import comp
-    return {"arms": [Arm(comp, "comp", 14000, 600000, label="S-COMP")], "level": "exploration", "rule": RULE_COMP,
+    return {"arms": [Arm(comp, "comp", 14000, 400000, label="S-COMP")], "level": "exploration", "rule": RULE_COMP,
             "assumptions": [
                 "the designed error channel is prophyc.ProphycError (emit.error) and SystemExit (argparse)",
                 "for prophy-language input without I/O fault or patch every other exception escaping prophyc.main is a "
@@ -236,17 +236,17 @@ def _cpp(prop, q, t):
 
 
 def _C03():
-    return {"arms": [_cpp("C03", 64, 3000)], "level": "exploration", "rule": RULE_CPP, "assumptions": ASSUME_CPP,
+    return {"arms": [_cpp("C03", 64, 2000)], "level": "exploration", "rule": RULE_CPP, "assumptions": ASSUME_CPP,
             "real_stub": REAL_STUB_CPP}
 
 
 def _C05():
-    return {"arms": [_cpp("C05", 64, 3000)], "level": "exploration", "rule": RULE_CPP, "assumptions": ASSUME_CPP,
+    return {"arms": [_cpp("C05", 64, 2000)], "level": "exploration", "rule": RULE_CPP, "assumptions": ASSUME_CPP,
             "real_stub": REAL_STUB_CPP}
 
 
 def _C07():
-    return {"arms": [_cpp("C07", 64, 3000)], "level": "fault_enumeration", "rule": RULE_CPP, "assumptions": ASSUME_CPP,
+    return {"arms": [_cpp("C07", 64, 2000)], "level": "fault_enumeration", "rule": RULE_CPP, "assumptions": ASSUME_CPP,
             "real_stub": REAL_STUB_CPP}
 
 
@@ -261,7 +261,7 @@ RULE_RULES = ("each run draws a valid schema (features the C++ generators accept
 
 def _C12():
     from props import rules
-    return {"arms": [Arm(rules, "rules", 8000, 300000, label="S-COMP/rules"), _cpp("C12", 16, 600)],
+    return {"arms": [Arm(rules, "rules", 8000, 200000, label="S-COMP/rules"), _cpp("C12", 16, 600)],
             "level": "exploration", "rule": RULE_RULES + "; second arm: the worlds of the C++ peer simulation (generated "
             "C++ full codec built with clang++ against the shipped headers)",
             "assumptions": ["the rule list is a transcription of the notes in docs/schema.rst and docs/encoding.rst",
